@@ -5,7 +5,19 @@ REAL = ['concepts (all modules, unmodified, imported from the tree under test)',
 STUB = ['SimSet (iteration order of sets created through the module-global name `set`)',
         'id-mapping Unpickler (integers naming bitset classes only)', 'the scheduler / plan generator']
 
+def _live(prop, quick, thorough, assumptions):
+    return {'world': 'L', 'runs': {'quick': quick, 'thorough': thorough}, 'gen': {'focus': prop},
+            'stream': prop, 'real': REAL, 'stub': STUB,
+            'assumptions': ['brute-force FCA model (sim/refmodel_fca.py) is the specification',
+                            'the input dimension (tables) is only sampled by the seeded workload generator'] + assumptions}
+
+
 SPECS = {
+    'C01': _live('C01', 3000, 150000, ['behaviour for unknown labels or mixed object/property arguments is unspecified and not generated']),
+    'C02': _live('C02', 2500, 100000, ['negative indexes, slices and mixed-kind keys are unspecified and not generated']),
+    'C05': _live('C05', 2500, 100000, ['the order of the list returned by Context.neighbors() is unspecified and not asserted']),
+    'C09': _live('C09', 3000, 100000, ['upset_generalization is documented experimental and not checked']),
+    'C10': _live('C10', 2500, 100000, ['order inside concept.atoms and the layout of str() are not asserted']),
     'C13': {'world': 'D', 'runs': {'quick': 12000, 'thorough': 400000}, 'real': REAL, 'stub': STUB,
             'assumptions': ['ordered-table reference model (sim/refmodel_table.py) is the specification',
                             'move_* with an index outside 0..len-1 and one-shot iterator arguments are unspecified and not generated',
